@@ -693,7 +693,12 @@ fn parse_conn(t: &str) -> Option<(u64, f64, u64, i32, f64, bool)> {
 }
 
 impl Component for LinkCc {
-    fn gen_case(&mut self, rng: &mut Rng, _tier: Tier, idx: usize) -> Vec<String> {
+    fn gen_case(&mut self, rng: &mut Rng, tier: Tier, idx: usize) -> Vec<String> {
+        // the real event loop: a few dozen scenarios per run (each costs a fraction of a second of wall time)
+        if idx % (if matches!(tier, Tier::Quick) { 150 } else { 50 }) == 77 {
+            let sc = verif_harness::looptrace::generate(rng, true);
+            return vec![format!("looptrace {}", sc.render())];
+        }
         let style = rng.below(3);
         let start = *rng.pick(&[0u64, 0, 1, 1000, 5000, 1_700_000_000_000, u64::MAX - 100_000]);
         let kind = if idx < 8 { idx as u64 } else { rng.below(10) };
@@ -863,6 +868,22 @@ impl Component for LinkCc {
                 } else {
                     ids.iter().map(|id| format!("{id}:{}", show_snap(",", &snaps[id]))).collect::<Vec<_>>().join(" ")
                 }
+            }
+            ["looptrace", rest @ ..] => {
+                // the REAL event loop end to end (see verif_harness::looptrace): C16 clauses on the per-tick CC
+                // snapshots it publishes, with NAK bursts, reconnects (counter restarts) and reloads. Monitor only.
+                let Some(sc) = verif_harness::looptrace::Scenario::parse(rest) else { return "bad-op".into() };
+                match verif_harness::looptrace::run(&sc) {
+                    Err(why) => mon.count(why),
+                    Ok(trace) => {
+                        mon.count("looptrace-scenario");
+                        if trace.iter().any(|t| t.links.iter().any(|l| l.cc_state != "bootstrap" && !l.cc_state.is_empty())) {
+                            mon.nontrivial();
+                        }
+                        verif_harness::looptrace::monitors_c16(&trace, &sc, mon);
+                    }
+                }
+                "looptrace-ok".into()
             }
             _ => "bad-op".into(),
         }
